@@ -131,8 +131,20 @@ Proof.
 Qed.
 
 (** A write through a read-only descriptor fails and changes nothing (the buffer is kept). *)
-Theorem empty_readonly_fails : forall w, f_mode (w_file w) = FRead -> w_elems w <> [] -> empty w = WErr WIo.
-Proof. intros w Hm He. unfold empty. destruct (w_elems w); [congruence|]. rewrite Hm. reflexivity. Qed.
+Theorem empty_readonly_fails : forall w, f_mode (w_file w) = FRead -> all_nil (w_elems w) = false ->
+  empty w = WErr WIo.
+Proof.
+  intros w Hm He. unfold empty. destruct (w_elems w) eqn:E; [discriminate|]. rewrite Hm, He. reflexivity.
+Qed.
+
+(** ... except that writing only empty pieces performs no write at all and succeeds. *)
+Theorem empty_readonly_nothing : forall w, f_mode (w_file w) = FRead -> all_nil (w_elems w) = true ->
+  exists w', empty w = WOk w' /\ w_elems w' = [] /\ w_file w' = w_file w /\ w_size w' = w_size w /\ w_chunk w' = w_chunk w.
+Proof.
+  intros w Hm He. unfold empty. destruct (w_elems w) eqn:E.
+  - exists w. repeat split; auto.
+  - rewrite Hm, He. eexists. repeat split.
+Qed.
 
 (** ** [fill]: tops the buffer up with consecutive chunk-size pieces of the file *)
 
@@ -186,7 +198,10 @@ Proof.
   - destruct (w_elems w) as [|c cs] eqn:E.
     + assert (X : empty w = WOk w) by (unfold empty; rewrite E; reflexivity). rewrite X. exact Hw.
     + destruct (f_mode (w_file w)) eqn:M.
-      * rewrite empty_readonly_fails by congruence. exact Hw.
+      * destruct (all_nil (w_elems w)) eqn:An.
+        -- destruct (empty_readonly_nothing w M An) as (w' & -> & A & _ & B & _). cbn [fst].
+           destruct Hw; split; [rewrite A, lenN_nil; lia | lia].
+        -- rewrite empty_readonly_fails by assumption. exact Hw.
       * destruct (empty_appends w ltac:(congruence)) as (w' & -> & A & _ & B & _). cbn [fst].
         destruct Hw; split; [rewrite A, lenN_nil; lia | lia].
       * destruct (empty_appends w ltac:(congruence)) as (w' & -> & A & _ & B & _). cbn [fst].
@@ -232,7 +247,7 @@ Proof.
   intros w o Hm. destruct o as [| |k|d]; cbn [wstep].
   - unfold fill. rewrite Hm.
     destruct (read_chunks _ _ _) as [[cs r] f]. cbn [fst w_file f_mode w_chunk]. auto.
-  - unfold empty. destruct (w_elems w); [auto|]. rewrite Hm. cbn [fst]. auto.
+  - unfold empty. destruct (w_elems w); [auto|]. rewrite Hm. destruct (all_nil _); cbn [fst w_file w_chunk]; auto.
   - unfold remove. destruct (_ <? _); cbn [fst w_file w_chunk]; auto.
   - unfold add. destruct (_ =? _); cbn [fst w_file w_chunk]; auto.
 Qed.
